@@ -112,8 +112,9 @@ Record fitout := mkFit {
   fo_par : list (Z * Z * Z);             (* fitted x, y, flux of each submodel *)
   fo_ierr : option Z; fo_status : option Z;
   fo_cov : option (list Z);              (* sqrt(diag(param_cov)); None = not returned *)
-  fo_fvec : option (list Z); fo_fun : option (list Z) }.
-Definition fit0 := mkFit [] None None None None None.
+  fo_fvec : option (list Z); fo_fun : option (list Z);
+  fo_ext : list (list Z) }.              (* fitted values of the further free parameters, per submodel *)
+Definition fit0 := mkFit [] None None None None None [].
 
 Inductive err := ENoOverlap | EMasked | EWeights | EInternal.
 
@@ -232,14 +233,15 @@ Fixpoint split_res (ns : list nat) (r : list Z) : list (list Z) :=
 (* per-source record, in the flattened group order *)
 Record psrc := mkP {
   p_src : src; p_par : Z * Z * Z; p_info : fitout; p_errs : list (option Z);
-  p_npix : nat; p_cen : option nat; p_gsize : nat; p_grp : nat; p_slot : nat }.
-Definition psrc0 := mkP src0 (0, 0, 0) fit0 [] 0 None 0 0 0.
+  p_npix : nat; p_cen : option nat; p_gsize : nat; p_grp : nat; p_slot : nat; p_ext : list Z }.
+Definition psrc0 := mkP src0 (0, 0, 0) fit0 [] 0 None 0 0 0 [].
 
 Definition per_group (gi : nat) (r : gres) : list psrc :=
   let n := length (gr_srcs r) in
   map (fun j => let fd := nth j (gr_fd r) ([], None) in
                 mkP (nth j (gr_srcs r) src0) (nth j (fo_par (gr_out r)) (0, 0, 0)) (gr_out r)
-                    (errs_of n j (fo_cov (gr_out r))) (length (fst fd)) (snd fd) n gi j)
+                    (errs_of n j (fo_cov (gr_out r))) (length (fst fd)) (snd fd) n gi j
+                    (nth j (fo_ext (gr_out r)) []))
       (seq 0 n).
 Fixpoint per_groups (gi : nat) (rs : list gres) : list psrc :=
   match rs with [] => [] | r :: rest => per_group gi r ++ per_groups (S gi) rest end.
@@ -315,7 +317,7 @@ Definition cfit_num (k : rkey) (res : list Z) (cen : option nat) : option Z :=
 Record orow := mkRow {
   o_src : src; o_gsize : Z; o_fit : Z * Z * Z; o_err : option Z * option Z * option Z;
   o_npix : Z; o_flags : Z; o_qnum : option Z; o_cnum : option Z;
-  o_grp : nat; o_slot : nat }.
+  o_grp : nat; o_slot : nat; o_ext : list Z }.
 
 Record result := mkRes {
   res_err : option err; res_calls : list callin; res_rows : list orow; res_errind : list Z }.
@@ -345,7 +347,7 @@ Definition photometry (srcs : list src) : result :=
       mkRes None calls
         (map (fun '(si, (p, r)) =>
                 mkRow si (Z.of_nat (p_gsize p)) (p_par p) (err_cols p) (Z.of_nat (p_npix p))
-                      (flags p) (qfit_num k r) (cfit_num k r (p_cen p)) (p_grp p) (p_slot p))
+                      (flags p) (qfit_num k r) (cfit_num k r (p_cen p)) (p_grp p) (p_slot p) (p_ext p))
              joined)
         (map (fun i => Z.of_nat i)
              (filter (fun i => flag8 (nth i ps psrc0)) (seq 0 (length ps))))
@@ -390,7 +392,7 @@ Definition enc_row (r : orow) : list (option Z) :=
   let '(xf, yf, ff) := o_fit r in let '(xe, ye, fe) := o_err r in
   [ Some (s_id s); Some (s_gid s); Some (o_gsize r); Some (s_bkg s);
     Some (s_x s); Some (s_y s); Some (s_flux s); Some xf; Some yf; Some ff;
-    xe; ye; fe; Some (o_npix r); Some (o_flags r) ].
+    xe; ye; fe; Some (o_npix r); Some (o_flags r) ] ++ map Some (o_ext r).
 
 (* impl value q = m * 2^(-k) (k may be negative) against the exact quotient num/den:
    q is within one rounding (relative 2^-52) of num/den; exact quotients pass with 0 *)
@@ -416,9 +418,9 @@ Definition err_code (e : option err) : Z :=
 
 Definition cfg := (Z * Z * Z * Z * Z)%type.                      (* ny nx fy fx sc *)
 Definition fitrec := (list (Z * Z * Z) * option Z * option Z * option (list Z)
-                      * option (list Z) * option (list Z))%type.
+                      * option (list Z) * option (list Z) * list (list Z))%type.
 Definition mk_fit (f : fitrec) : fitout :=
-  let '(p, ie, st, cov, fv, fn) := f in mkFit p ie st cov fv fn.
+  let '(p, ie, st, cov, fv, fn, ext) := f in mkFit p ie st cov fv fn ext.
 Definition expected := (Z * bool * list (list (list (option Z))) * list (list (option Z))
                         * list (option (Z * Z) * option (Z * Z)) * list Z)%type.
 Definition case := (cfg * (list bool * option (list bool)) * list (option Z) * option (list bool)
@@ -435,7 +437,7 @@ Definition run_model (c : case) : option (bool * result) :=
   | None => None
   | Some gids =>
       Some (warn, photometry ny nx fy fx sc m data errbad xyb fixd nextra
-                    (fun k _ => mk_fit (nth k fits ([], None, None, None, None, None)))
+                    (fun k _ => mk_fit (nth k fits ([], None, None, None, None, None, [])))
                     (mk_srcs ids' gids ins))
   end.
 
